@@ -261,8 +261,11 @@ func doTakeSnapshot(fsm *stateMachine, req fsmSnapReq, config Config) (snapshotM
 	if err != nil {
 		return meta, opError(err, "FSMState.Persist")
 	}
+	if doneErr == ErrNoUpdates {
+		return meta, doneErr // overtaken by a newer snapshot, not a storage failure
+	}
 	if doneErr != nil {
-		return meta, opError(err, "snapshotSink.done")
+		return meta, opError(doneErr, "snapshotSink.done")
 	}
 	return meta, nil
 }
